@@ -107,7 +107,7 @@ func runC14(c *Ctx) {
 		case 6:
 			switch c.T.Choose(4) {
 			case 0:
-				what, msg = "garbage-not-base64", "!!!"+string(c.T.Bytes(5, 2))
+				what, msg = "garbage-not-base64", "!!!"+codec.B64(c.T.Bytes(5, 2))+"*"
 			case 1:
 				what, msg = "garbage-random", b64(c.T.Bytes(1+c.T.Choose(80), 3))
 			case 2:
@@ -197,10 +197,10 @@ func runC14(c *Ctx) {
 			c.S.Fail("C14", "negotiate-unanswered", "session %s: a well-formed negotiate message got no challenge (err=%v)", sn, res.Err)
 		case authd:
 			s.chal, s.touched = nil, false
-		case res.Err != nil && msg != "":
-			// the verifier drops the context on errors: the next message starts afresh
-			s.touched = false
 		}
+		// (after an error the verifier drops the context, so a later one lives longer than
+		// this model assumes; keeping the older birth time only narrows the completeness
+		// demand and cannot cause a false alarm)
 		if strings.HasPrefix(what, "auth-") {
 			sent = append(sent, msg)
 		}
